@@ -78,7 +78,11 @@ FORMS = [
 QUICK_FORMS = [f for i, f in enumerate(FORMS) if i % 2 == 0 or "invoke" in f or f == "{{#if:1|@|n}}"]
 SLOW_FORM = "{{#invoke:m|slow}}"
 # nested far deeper than any limit inside a parser function's argument: the recursion error is contained by the function
-DEEP_FORMS = ["{{#if:1|" + "{{{a|" * 1200 + "x" + "}}}" * 1200 + "}}", "{{#ifeq:" + "{{{a|" * 1100 + "x" + "}}}" * 1100 + "|x|y|n}} {{a|1}}"]
+# (the first two nest parameters beyond the interpreter's recursion limit; the others reach the depth limit of the
+# expansion itself - calls nested 60 deep - outside any Lua invocation)
+DEEP_FORMS = ["{{#if:1|" * 60 + "x" + "}}" * 60 + " {{a|1}}", "{{a|" * 60 + "x" + "}}" * 60 + " {{#if:1|y}}",
+              "{{#if:" * 55 + "x" + "|y|n}}" * 55, "{{a|k=" * 52 + "x" + "}}" * 52 + "{{loop}}",
+              "{{#if:1|" + "{{{a|" * 1200 + "x" + "}}}" * 1200 + "}}", "{{#ifeq:" + "{{{a|" * 1100 + "x" + "}}}" * 1100 + "|x|y|n}} {{a|1}}"]
 
 HOOKS = ("none", "tf_none", "tf_mark", "ptf_none", "ptf_mark", "tf_raise", "ptf_raise")
 
